@@ -21,6 +21,8 @@ VALID_SNIPPETS = [
     'a, *b = c\n', '*a, = b\n', '[*a, b] = c\n', 'for a, *b in c: pass\n', 'a, b = *c, d\n', 'print(*a, *b, **c, **d)\n',
     'f(*a, b, *c, d=1, **e)\n', 'f(a, *b, c=1, *d, **e)\n', 'f(x for x in y)\n', 'f(a, (x for x in y))\n', 'f(**a, b=1)\n',
     'f(a := 1)\n', 'f(a := 1, b)\n', 'print(y := f(x), y**2)\n', 'g(n := 1, n := 2)\n', 'f(a := 1, *b, c=2, **d)\n', 'f((a := 1), b=(c := 2))\n',
+    '[(i := 1) for [a, b] in x]\n', '[(y := f(k)) for d[k] in pairs]\n', '[(n := len(rest)) for first, *rest in rows]\n', '[(i := 1) for (a, b) in x]\n',
+    '{(j := k) for k, in y}\n', '[(i := 1) for a.b in x]\n',
     'x[a := 1]\n', 'x[a := 1, b]\n', 'f(*a, b := 2)\n', 'if (n := len(a)) > 1: pass\n', '[y := f(x), y**2]\n', 'x = (y := 1) + y\n',
     'while chunk := f.read(1):\n    pass\n', '[(z := x) for x in y if (w := x)]\n', 'def f(a, b=(c := 1)): pass\n',
     'x: int = 1\n', 'x: int\n', 'x.y: int = 1\n', 'x[0]: int\n', '(x): int = 1\n', 'class A:\n    x: int = 1\n    y: "str"\n',
